@@ -357,6 +357,12 @@ class SimulationAlgorithmGraphBase
     virtual bool Iterate() = 0;
     // one itetation of the simulation algorithm. Returns true if the simulation should continue. False otherwise.
 
+    bool IsComplete()
+    // returns true if the simulation is complete
+        {
+        return complete;
+        }
+
     double GetProgress()
     // returns 100*t/t_max
         {
